@@ -10,6 +10,7 @@ CONSTANTS
   Wraps = {0}
   Kinds = {"A", "M"}
   Types = {}
+  Rejects = FALSE
   Persist = FALSE
   EmitDepth = 0
   RareOff = TRUE
